@@ -25,9 +25,11 @@ InitMulti == \E n \in 2..NMax : \E a \in [1..n -> 0..1] : \E b \in [1..n -> 0..1
                sc = [n |-> n, val |-> a, o2 |-> b, F |-> F, first |-> first, last |-> last,
                      cw |-> CW(n, 2), multi |-> TRUE, map |-> <<0, 0, -1, -1>>, first2 |-> 0, last2 |-> 0]
 InitMap == \E p \in Perms(3) : \E F \in SUBSET (1..3) : \E m \in [1..4 -> {-1, 0, 1}] :
-           \E w1 \in {<<0, 0>>, <<1, 2>>} : \E w2 \in {<<0, 1>>, <<2, 2>>} :
-               sc = [n |-> 3, val |-> [i \in 1..3 |-> p[i] - 2], o2 |-> [i \in 1..3 |-> 0], F |-> F,
-                     first |-> w1[1], last |-> w1[2], cw |-> CW(3, 2), multi |-> FALSE, map |-> m,
+           \E w1 \in {<<0, 0>>, <<1, 2>>} : \E w2 \in {<<0, 1>>, <<2, 2>>} : \E pat \in {2, 3} :
+               \* (a zero configured weight where only constraints are filtered: the realization must still be evaluated)
+               /\ (pat = 3 => m[1] = -1 /\ m[2] = -1)
+               /\ sc = [n |-> 3, val |-> [i \in 1..3 |-> p[i] - 2], o2 |-> [i \in 1..3 |-> 0], F |-> F,
+                     first |-> w1[1], last |-> w1[2], cw |-> CW(3, pat), multi |-> FALSE, map |-> m,
                      first2 |-> w2[1], last2 |-> w2[2]]
 
 Init == /\ CASE Family = "perm" -> InitPerm [] Family = "multi" -> InitMulti [] Family = "map" -> InitMap
